@@ -123,13 +123,13 @@ void Stats::absorb(const simsched::SchedResult &r) {
   c["sched.steps"] += r.steps;
   c["sched.switches"] += r.switches;
   c["sched.preemptions"] += r.preemptions;
-  c["fault.spurious_wakeup"] += r.spurious_fired;
-  c["fault.notify_victim_choice"] += r.notify_victim_choices;
-  c["fault.timeout_fired"] += r.timeouts_fired;
+  if (r.spurious_fired) c["fault.spurious_wakeup"] += r.spurious_fired;
+  if (r.notify_victim_choices) c["fault.notify_victim_choice"] += r.notify_victim_choices;
+  if (r.timeouts_fired) c["fault.timeout_fired"] += r.timeouts_fired;
   c["sched.threads_created"] += r.threads_created;
-  c["probe.look_before_first_load"] += r.probe_look_before_first_load;
-  c["probe.io_between_look_and_use"] += r.probe_io_between_look_and_use;
-  c["probe.spurious_consumed"] += r.probe_spurious_consumed;
+  if (r.probe_look_before_first_load) c["probe.look_at_never_filled_buffer"] += r.probe_look_before_first_load;
+  if (r.probe_io_between_look_and_use) c["probe.io_between_look_and_use"] += r.probe_io_between_look_and_use;
+  if (r.probe_spurious_consumed) c["probe.spurious_consumed"] += r.probe_spurious_consumed;
   if (r.preemptions > 0) c["sched.ops_with_preemption"]++;
   c["sched.ops"]++;
   c["sched.decision_points"] += r.decision_points;
@@ -308,6 +308,6 @@ OpResult run_slot(const Scn &s, OpSpec &op, int slot, const char *opname, HangPo
   OpResult r = run_op(op);
   g_ctx.recorded[slot] = r.sr.decisions;
   g_stats.absorb(r.sr);
-  if (op.fin) { g_stats.add("fault.short_read", op.fin->short_reads); }
+  if (op.fin && op.fin->short_reads) g_stats.add("fault.short_read", op.fin->short_reads);
   return r;
 }
